@@ -422,11 +422,12 @@ Section Proofs.
   Qed.
 
   Lemma step_rmems st r st' : step st (ARMems r) = Some st' ->
-    (r_ph (d_rd st r) = PSeq \/ r_ph (d_rd st r) = PVer) /\ r_reg (d_rd st r) = true /\
+    r_ph (d_rd st r) <> PIdle /\ r_reg (d_rd st r) = true /\
     st' = with_reader st r (set_mems (d_rd st r) PMems (d_cur st) (d_frz st)) (d_snaps st) (d_rlog st).
   Proof.
     cbn [ReadCut.step]. cbn zeta. destruct (r_ph (d_rd st r)) eqn:P; try discriminate;
-      (destruct (r_reg (d_rd st r)) eqn:R; [|discriminate]); intros H; injection H as <-; auto.
+      (destruct (r_reg (d_rd st r)) eqn:R; [|discriminate]); intros H; injection H as <-;
+      (split; [discriminate|auto]).
   Qed.
 
   Lemma step_rversion st r st' : step st (ARVersion r) = Some st' ->
@@ -437,23 +438,50 @@ Section Proofs.
     intros H; injection H as <-; auto.
   Qed.
 
+  Lemma cutget_hit_any M F V k s e : cutget M F [] k s = Some e -> cutget M F V k s = Some e.
+  Proof.
+    unfold ReadCut.cutget. destruct (newest k s M None); [auto|]. destruct (newest k s F None); [auto|].
+    cbn [Lsm.newest]. discriminate.
+  Qed.
+
   Lemma step_rlookup st r k ans st' : step st (ARLookup r k ans) = Some st' ->
     let x := d_rd st r in
-    let a := res (cutget (d_hp st (r_m x)) (hpo (d_hp st) (r_f x)) (r_v x) k (r_s x)) in
-    r_ph x = PVer /\ a = ans /\
-    st' = with_reader st r x (d_snaps st) ((r, r_s x, r_h0 x, k, a) :: d_rlog st).
+    exists a,
+      ((r_ph x = PVer /\ a = res (cutget (d_hp st (r_m x)) (hpo (d_hp st) (r_f x)) (r_v x) k (r_s x))) \/
+       (r_ph x = PMems /\ a = res (cutget (d_hp st (r_m x)) (hpo (d_hp st) (r_f x)) (d_ver st) k (r_s x)))) /\
+      a = ans /\
+      st' = with_reader st r x (d_snaps st) ((r, r_s x, r_h0 x, k, a) :: d_rlog st).
   Proof.
     cbn [ReadCut.step]. cbn zeta. destruct (r_ph (d_rd st r)) eqn:P; try discriminate.
-    destruct (opt_bytes_eqb _ ans) eqn:E; [|discriminate]. intros H; injection H as <-.
-    apply opt_bytes_eqb_eq in E. auto.
+    - destruct (cutget _ _ [] k _) as [e|] eqn:C; [|discriminate].
+      destruct (opt_bytes_eqb _ ans) eqn:E; [|discriminate]. intros H; injection H as <-.
+      apply opt_bytes_eqb_eq in E. exists (res (Some e)). split; [|split; [exact E|reflexivity]].
+      right. split; [reflexivity|]. rewrite (cutget_hit_any _ _ (d_ver st) _ _ _ C). reflexivity.
+    - destruct (opt_bytes_eqb _ ans) eqn:E; [|discriminate]. intros H; injection H as <-.
+      apply opt_bytes_eqb_eq in E. eexists. split; [left; split; reflexivity|]. split; [exact E|reflexivity].
   Qed.
 
   Lemma step_rrelease st r st' : step st (ARRelease r) = Some st' ->
-    (r_ph (d_rd st r) = PSeq \/ r_ph (d_rd st r) = PVer) /\ r_reg (d_rd st r) = true /\
-    st' = with_reader st r (set_reg (d_rd st r) false) (unregister r (d_snaps st)) (d_rlog st).
+    r_ph (d_rd st r) <> PIdle /\
+    exists x', r_ph x' <> PMems /\ r_ph x' <> PIdle /\ r_ph x' <> PVerOnly /\ r_reg x' = false /\
+               r_s x' = r_s (d_rd st r) /\ r_h0 x' = r_h0 (d_rd st r) /\
+               (r_ph x' = PVer -> r_ph (d_rd st r) = PVer /\ r_m x' = r_m (d_rd st r) /\ r_f x' = r_f (d_rd st r) /\
+                                  r_v x' = r_v (d_rd st r)) /\
+               st' = with_reader st r x' (unregister r (d_snaps st)) (d_rlog st).
   Proof.
-    cbn [ReadCut.step]. cbn zeta. destruct (r_ph (d_rd st r)) eqn:P; try discriminate;
-      (destruct (r_reg (d_rd st r)) eqn:R; [|discriminate]); intros H; injection H as <-; auto.
+    cbn [ReadCut.step]. cbn zeta. destruct (r_ph (d_rd st r)) eqn:P; try discriminate.
+    - destruct (r_reg (d_rd st r)) eqn:R; [|discriminate]. intros H; injection H as <-.
+      split; [discriminate|]. exists (set_reg (d_rd st r) false). sim. rewrite P.
+      split; [discriminate|]. split; [discriminate|]. split; [discriminate|]. split; [reflexivity|].
+      split; [reflexivity|]. split; [reflexivity|]. split; [intros Q; discriminate Q|reflexivity].
+    - intros H; injection H as <-.
+      split; [discriminate|]. exists (set_reg (set_phase (d_rd st r) PSeq) false). sim.
+      split; [discriminate|]. split; [discriminate|]. split; [discriminate|]. split; [reflexivity|].
+      split; [reflexivity|]. split; [reflexivity|]. split; [intros Q; discriminate Q|reflexivity].
+    - destruct (r_reg (d_rd st r)) eqn:R; [|discriminate]. intros H; injection H as <-.
+      split; [discriminate|]. exists (set_reg (d_rd st r) false). sim. rewrite P.
+      split; [discriminate|]. split; [discriminate|]. split; [discriminate|]. split; [reflexivity|].
+      split; [reflexivity|]. split; [reflexivity|]. split; [intros _; auto|reflexivity].
   Qed.
 
   Lemma step_rdone st r st' : step st (ARDone r) = Some st' ->
@@ -825,9 +853,8 @@ Section Proofs.
 
   Lemma inv_rmems st r st' : inv st -> step st (ARMems r) = Some st' -> inv st'.
   Proof.
-    intros I H. apply step_rmems in H as [P [Rg ->]].
+    intros I H. apply step_rmems in H as [Pn [Rg ->]].
     pose proof (i_rd st I r) as R. set (x := d_rd st r) in *.
-    assert (Pn : r_ph x <> PIdle) by (destruct P as [P|P]; rewrite P; discriminate).
     destruct (ri_base _ _ _ R Pn) as [Sle Hx]. destruct (ri_reg _ _ _ R Rg) as [_ Hin].
     apply inv_reader_frame; [exact I| | | |apply (i_rlog st I)].
     - unfold prot; sim. auto.
@@ -866,31 +893,35 @@ Section Proofs.
 
   Lemma inv_rlookup st r k ans st' : inv st -> step st (ARLookup r k ans) = Some st' -> inv st'.
   Proof.
-    intros I H. apply step_rlookup in H as [P [_ ->]].
+    intros I H. apply step_rlookup in H as [a [Pa [_ ->]]].
     pose proof (i_rd st I r) as R. set (x := d_rd st r) in *.
-    destruct (ri_base _ _ _ R ltac:(congruence)) as [Sle Hx].
-    pose proof (ri_ver _ _ _ R P) as C.
+    assert (Pn : r_ph x <> PIdle) by (destruct Pa as [[P _]|[P _]]; rewrite P; discriminate).
+    destruct (ri_base _ _ _ R Pn) as [Sle Hx].
+    assert (Ca : a = spec (d_hist st) k (r_s x)).
+    { destruct Pa as [[P ->]|[P ->]]; [apply (ri_ver _ _ _ R P)|].
+      destruct (ri_mems _ _ _ R P) as [_ [_ [_ [_ C]]]]. apply C. }
     apply inv_reader_frame; [exact I| | | |].
     - unfold prot; sim. auto.
     - apply (rinv_same_fields st); auto.
     - intros r' y N _ _ Hin'. exact Hin'.
-    - intros r' s h0 k' a [E|Hin]; [|apply (i_rlog st I r' s h0 k' a Hin)].
-      injection E as <- <- <- <- <-. split; [apply C|]. split; [exact Sle|exact Hx].
+    - intros r' s h0 k' a' [E|Hin]; [|apply (i_rlog st I r' s h0 k' a' Hin)].
+      injection E as <- <- <- <- <-. split; [exact Ca|]. split; [exact Sle|exact Hx].
   Qed.
 
   Lemma inv_rrelease st r st' : inv st -> step st (ARRelease r) = Some st' -> inv st'.
   Proof.
-    intros I H. apply step_rrelease in H as [P [Rg ->]].
+    intros I H. apply step_rrelease in H as [Pn [x' [Pm [Pi [Pa [Rg [Es [Eh [Pv ->]]]]]]]]].
     pose proof (i_rd st I r) as R. set (x := d_rd st r) in *.
-    assert (Pn : r_ph x <> PIdle) by (destruct P as [P|P]; rewrite P; discriminate).
     destruct (ri_base _ _ _ R Pn) as [Sle Hx].
     apply inv_reader_frame; [exact I| | | |apply (i_rlog st I)].
     - unfold prot; sim. intros s [[r' Hin]|Hs]; [left; exists r'; apply (unregister_in r); exact Hin|right; exact Hs].
-    - constructor; sim; try discriminate.
-      + apply (ri_alt _ _ _ R).
-      + intros _. split; [exact Sle|exact Hx].
-      + intros Pm. destruct P as [P|P]; congruence.
-      + apply (ri_ver _ _ _ R).
+    - constructor; sim.
+      + exact Pa.
+      + intros _. rewrite Es, Eh. split; [exact Sle|exact Hx].
+      + rewrite Rg. discriminate.
+      + intros P. contradiction.
+      + intros P. destruct (Pv P) as [P0 [Em [Ef Ev]]]. pose proof (ri_ver _ _ _ R P0) as C.
+        unfold cap_ok in *; sim. rewrite Em, Ef, Ev, Es. exact C.
     - intros r' y N _ _ Hin'. apply unregister_other; assumption.
   Qed.
 
@@ -1107,15 +1138,16 @@ Section Proofs.
       apply step_rseq in H as [P [-> ->]]. apply inv2_reader; [exact W| |apply (w_rlog st W)].
       sim. intros _. apply pubpt_seq. exact W.
     - apply step_rmems in H as [P [Rg ->]]. apply inv2_reader; [exact W| |apply (w_rlog st W)].
-      sim. intros _. apply (w_rd st W). destruct P as [P|P]; rewrite P; discriminate.
+      sim. intros _. apply (w_rd st W). exact P.
     - apply step_rversion in H as [P ->]. apply inv2_reader; [exact W| |apply (w_rlog st W)].
       sim. intros _. apply (w_rd st W). rewrite P; discriminate.
-    - apply step_rlookup in H as [P [_ ->]].
-      assert (Pp : pubpt st (r_s (d_rd st r))) by (apply (w_rd st W); rewrite P; discriminate).
+    - apply step_rlookup in H as [a0 [Pa [_ ->]]].
+      assert (Pp : pubpt st (r_s (d_rd st r))).
+      { apply (w_rd st W). destruct Pa as [[P _]|[P _]]; rewrite P; discriminate. }
       apply inv2_reader; [exact W|intros _; exact Pp|].
       intros r' s h0 k' a [E|Hin]; [injection E as _ <- _ _ _; exact Pp|apply (w_rlog st W r' s h0 k' a Hin)].
-    - apply step_rrelease in H as [P [Rg ->]]. apply inv2_reader; [exact W| |apply (w_rlog st W)].
-      sim. intros _. apply (w_rd st W). destruct P as [P|P]; rewrite P; discriminate.
+    - apply step_rrelease in H as [Pn [x' [_ [_ [_ [_ [Es [_ [_ ->]]]]]]]]]. apply inv2_reader; [exact W| |apply (w_rlog st W)].
+      intros _. rewrite Es. apply (w_rd st W). exact Pn.
     - apply step_rdone in H as ->. apply inv2_reader; [exact W| |apply (w_rlog st W)].
       sim. intros N. exfalso. apply N. reflexivity.
   Qed.
@@ -1142,8 +1174,8 @@ Section Proofs.
     - apply step_rseq in H as [_ [_ ->]]; sim; lia.
     - apply step_rmems in H as [_ [_ ->]]; sim; lia.
     - apply step_rversion in H as [_ ->]; sim; lia.
-    - apply step_rlookup in H as [_ [_ ->]]; sim; lia.
-    - apply step_rrelease in H as [_ [_ ->]]; sim; lia.
+    - apply step_rlookup in H as [a0 [_ [_ ->]]]; sim; lia.
+    - apply step_rrelease in H as [_ [x' [_ [_ [_ [_ [_ [_ [_ ->]]]]]]]]]; sim; lia.
     - apply step_rdone in H as ->; sim; lia.
   Qed.
 
@@ -1273,16 +1305,16 @@ Section Proofs.
     - apply step_rseq in H as [P [-> ->]]. apply oinv_reader; [exact O| |exact Keep].
       sim. intros _. exists tr, [], st. auto.
     - apply step_rmems in H as [P [Rg ->]]. apply oinv_reader; [exact O| |exact Keep].
-      sim. intros _. apply origin_snoc. apply OA. destruct P as [P|P]; rewrite P; discriminate.
+      sim. intros _. apply origin_snoc. apply OA. exact P.
     - apply step_rversion in H as [P ->]. apply oinv_reader; [exact O| |exact Keep].
       sim. intros _. apply origin_snoc. apply OA. rewrite P; discriminate.
-    - apply step_rlookup in H as [P [_ ->]].
+    - apply step_rlookup in H as [a0 [Pa [_ ->]]].
       assert (Or : origin (tr ++ [ARLookup r k ans]) r (r_s (d_rd st r)) (r_h0 (d_rd st r))).
-      { apply origin_snoc. apply OA. rewrite P; discriminate. }
+      { apply origin_snoc. apply OA. destruct Pa as [[P _]|[P _]]; rewrite P; discriminate. }
       apply oinv_reader; [exact O|intros _; exact Or|].
       intros r' s h0 k' y [E|Hin]; [injection E as <- <- <- _ _; exact Or|apply (Keep r' s h0 k' y Hin)].
-    - apply step_rrelease in H as [P [Rg ->]]. apply oinv_reader; [exact O| |exact Keep].
-      sim. intros _. apply origin_snoc. apply OA. destruct P as [P|P]; rewrite P; discriminate.
+    - apply step_rrelease in H as [Pn [x' [_ [_ [_ [_ [Es [Eh [_ ->]]]]]]]]]. apply oinv_reader; [exact O| |exact Keep].
+      intros _. rewrite Es, Eh. apply origin_snoc. apply OA. exact Pn.
     - apply step_rdone in H as ->. apply oinv_reader; [exact O| |exact Keep].
       sim. intros N. exfalso. apply N. reflexivity.
   Qed.
